@@ -1234,7 +1234,8 @@ def chunk_reduce(
             # Of course we are slower to ravel `array` but we avoid argsorting
             # both `array` *and* `group_idx` in _prepare_for_flox
             group_idx = np.broadcast_to(group_idx, array.shape[-by.ndim :])
-            if engine == "flox":
+            # (not for first/last: they pick members by position, and "position" means C order)
+            if engine == "flox" and not any(_is_first_last_reduction(f) for f in funcs):
                 group_idx = group_idx.reshape(-1, order="F")
                 order = "F"
     # always reshape to 1D along group dimensions
